@@ -1,16 +1,50 @@
-"""C11 — engine-level check: random Script workflows on the real SDK over several invocations (crashes,
-checkpoint faults, backend events, paginated histories) vs the Lean engine model, plus the C11
-oracles evaluated on the implementation's own traces (harness/comp_engine.py)."""
+"""C11 — the update stream is a valid operation history.  Engine-level check (comp_engine; the fake
+backend is the lifecycle automaton and rejects loudly) + the machine-checked counterexample of
+Props/C11.lean (cexF2) replayed on the real SDK: a workflow whose control flow branches on the class of
+a wait_for_condition failure takes a different path on replay (finding F2) and sends an update the
+backend refuses."""
 from __future__ import annotations
 
 from harness import comp_engine
+from harness.backend import FakeBackend
+from harness.engine_sim import run_invocation
 
 META = comp_engine.meta("C11")
 
 
+def f2_witness_handler(event, context):
+    from aws_durable_execution_sdk_python.config import Duration
+    from aws_durable_execution_sdk_python.exceptions import CallableRuntimeError
+    from aws_durable_execution_sdk_python.waits import WaitForConditionConfig, WaitForConditionDecision
+
+    def check(state, cctx):
+        raise ValueError("m")
+
+    try:
+        context.wait_for_condition(check, WaitForConditionConfig(wait_strategy=lambda s, a: WaitForConditionDecision.stop_polling(),
+                                                               initial_state=0), name="p:1")
+    except CallableRuntimeError:
+        return context.step(lambda sc: "b", name="p:2")          # replay path
+    except ValueError:
+        context.wait(Duration.from_seconds(5), name="p:2")        # first-run path
+        return "a"
+
+
+def run_f2_witness(ctx):
+    backend = FakeBackend()
+    r1 = run_invocation(f2_witness_handler, backend, {"imm": []}, seed=1)
+    r2 = run_invocation(f2_witness_handler, backend, {"imm": []}, seed=2)
+    ctx.case(("f2-witness",))
+    if backend.rejections:
+        ctx.violate("C11.backend_rejected_update", {"program": "cexF2 (Props/C11.lean): wfc check raises; except ValueError -> wait, except CallableRuntimeError -> step",
+                                                    "script": [{"op": "wfc", "init": "z", "check": [{"err": {"cls": "ValueError", "msg": "m"}}], "decide": [None], "catch": True}]},
+                    {"rejection": backend.rejections[0], "first": (r1.get("out") or {}).get("Status"), "second": (r2.get("out") or {}).get("Status") or repr(r2.get("raised"))},
+                    "engine.f2_witness", kind="history")
+
+
 def run(ctx):
+    run_f2_witness(ctx)
     comp_engine.run(ctx, "C11", **comp_engine.PARAMS.get("C11", {}))
-    comp_engine.extra(ctx, "C11")
 
 
 def search(ctx):
@@ -18,4 +52,7 @@ def search(ctx):
 
 
 def replay(ctx, rec):
-    comp_engine.replay(ctx, rec, "C11")
+    if "program" in rec["case"]:
+        run_f2_witness(ctx)
+    else:
+        comp_engine.replay(ctx, rec, "C11")
